@@ -76,6 +76,9 @@ package shell_operator
 // rate-limit token of this very hook (C18) and consumes it. Ghost: its results.
 //@ ghost nSetAdm int
 //@ ghost lastAdmProp interface{}
+// the batches of hook metrics handed to the metric storage, and the outcome of the latest one
+//@ ghost nSend int
+//@ ghost lastSendErr error
 // (the contract of (*Hook).Run is in pkg/hook: its body is verified for C12)
 //@ package github.com/flant/shell-operator/pkg/hook/controller
 //@ trusted func (*HookController).SnapshotsInfo
@@ -93,7 +96,9 @@ package shell_operator
 //@ trusted func Storage.GaugeSet
 //@   modifies nothing
 //@ trusted func Storage.SendBatch
-//@   modifies nothing
+//@   modifies shell_operator.nSend, shell_operator.lastSendErr
+//@   ghostset shell_operator.nSend := shell_operator.nSend + 1
+//@   ghostset shell_operator.lastSendErr := result
 //@ package github.com/flant/shell-operator/pkg/task
 //@ trusted func Task.SetProp
 //@   modifies shell_operator.nSetAdm, shell_operator.lastAdmProp
@@ -111,7 +116,7 @@ package shell_operator
 //@   requires taskHook.HookController != nil && t != nil && taskHook.Config != nil && (taskHook.Config.Version == "v0" || taskHook.Config.Version == "v1")
 //@   requires [ghost-wf] hook.nProcess >= 0 && !hook.fsExists[""]
 //@   modifies bindingcontext.lastConvIn, bindingcontext.lastConvVersion, bindingcontext.lastConvOut, controller.lastRefreshIn, controller.lastRefreshOut, controller.snapCount, controller.snapOf, hook.fsExists, hook.ctxFileContent, hook.nProcess, hook.lastExitErr, hook.nOutputsRead
-//@   modifies hook.nRun, hook.ranContexts, ranErr, hook.lastWaitHook, hook.lastHookResult, hook.lastHookErr, nSetAdm, lastAdmProp, objectpatch.nPatchExec, objectpatch.nExec, objectpatch.execOp, objectpatch.execErr, objectpatch.lastSpecs, objectpatch.lastDecodeErr
+//@   modifies hook.nRun, hook.ranContexts, ranErr, hook.lastWaitHook, hook.lastHookResult, hook.lastHookErr, nSetAdm, lastAdmProp, nSend, lastSendErr, objectpatch.nPatchExec, objectpatch.nExec, objectpatch.execOp, objectpatch.execErr, objectpatch.lastSpecs, objectpatch.lastDecodeErr
 //@   ghostset ranErr := result
 //@   ensures [runs-once]                hook.nRun == old(hook.nRun) + 1 && hook.ranContexts == hookMeta.BindingContext
 //@   ensures [hook-error-fails]         hook.lastHookErr != nil ==> result != nil
@@ -122,10 +127,13 @@ package shell_operator
 //@   ensures [patch/all-or-nothing @C13] objectpatch.nPatchExec > old(objectpatch.nPatchExec) ==> objectpatch.lastDecodeErr == nil && forall(j, 0, len(objectpatch.lastSpecs), objectpatch.SpecValid(objectpatch.lastSpecs[j]))
 //@   ensures [patch/in-order @C13]       hook.lastHookErr == nil && objectpatch.nPatchExec > old(objectpatch.nPatchExec) ==> objectpatch.nExec == old(objectpatch.nExec) + len(objectpatch.lastSpecs)
 //@        && forall(k, old(objectpatch.nExec), objectpatch.nExec, objectpatch.execOp[k] == objectpatch.opOf(objectpatch.lastSpecs[k - old(objectpatch.nExec)]))
-//@   ensures [patch/bad-file-fails @C13] hook.lastHookErr == nil && result == nil && len(hook.lastHookResult.KubernetesPatchBytes) > 0 ==> objectpatch.nPatchExec == old(objectpatch.nPatchExec) + 1
+//@   ensures [patch/apply-error-fails @C13,C04] result == nil ==> forall(k, old(objectpatch.nExec), objectpatch.nExec, objectpatch.execErr[k] == nil)
+//@   ensures [metrics/error-fails @C04,C16] result == nil ==> nSend == old(nSend) + 1 && lastSendErr == nil
+//@   ensures [metrics/only-after-patches @C16,C13] nSend > old(nSend) ==> hook.lastHookErr == nil && forall(k, old(objectpatch.nExec), objectpatch.nExec, objectpatch.execErr[k] == nil)
+//@   ensures [patch/bad-file-fails @C13,C04] hook.lastHookErr == nil && result == nil && len(hook.lastHookResult.KubernetesPatchBytes) > 0 ==> objectpatch.nPatchExec == old(objectpatch.nPatchExec) + 1
 //@   ensures [patch/no-file-no-patch @C13] hook.lastHookErr == nil && len(hook.lastHookResult.KubernetesPatchBytes) == 0 ==> objectpatch.nPatchExec == old(objectpatch.nPatchExec)
 //@   loop 1
-//@     invariant hook.nRun == old(hook.nRun) && hook.lastWaitHook == old(hook.lastWaitHook) && hook.lastWaitErr == old(hook.lastWaitErr) && nSetAdm == old(nSetAdm) && objectpatch.nPatchExec == old(objectpatch.nPatchExec)
+//@     invariant hook.nRun == old(hook.nRun) && hook.lastWaitHook == old(hook.lastWaitHook) && hook.lastWaitErr == old(hook.lastWaitErr) && nSetAdm == old(nSetAdm) && objectpatch.nPatchExec == old(objectpatch.nPatchExec) && nSend == old(nSend) && objectpatch.nExec == old(objectpatch.nExec)
 
 // ---- C07: combining adjacent tasks ------------------------------------------------------------
 // Accessors of task metadata as functions of the metadata value.
@@ -397,7 +405,7 @@ package shell_operator
 //@ func (*ShellOperator).taskHandleHookRun
 //@   prop C04, C18, C14
 //@   requires op.HookManager != nil && op.TaskQueues != nil && t != nil
-//@   modifies hook.nRun, hook.ranContexts, ranErr, nCombine, lastCombine, allMergedAllowFailure, nUpdateMeta, lastMeta, nUnlock, hook.lastWaitHook, hook.lastWaitErr, hook.lastHookResult, hook.lastHookErr, nSetAdm, lastAdmProp, objectpatch.nPatchExec, objectpatch.nExec, objectpatch.execOp, objectpatch.execErr, objectpatch.lastSpecs, objectpatch.lastDecodeErr, gotMeta, metaEpoch, rate.lastWaitLimiter, rate.lastLimiterErr
+//@   modifies hook.nRun, hook.ranContexts, ranErr, nCombine, lastCombine, allMergedAllowFailure, nUpdateMeta, lastMeta, nUnlock, hook.lastWaitHook, hook.lastWaitErr, hook.lastHookResult, hook.lastHookErr, nSetAdm, lastAdmProp, nSend, lastSendErr, objectpatch.nPatchExec, objectpatch.nExec, objectpatch.execOp, objectpatch.execErr, objectpatch.lastSpecs, objectpatch.lastDecodeErr, gotMeta, metaEpoch, rate.lastWaitLimiter, rate.lastLimiterErr
 //@   requires [ghost-wf] hook.nProcess >= 0 && !hook.fsExists[""]
 //@   modifies bindingcontext.lastConvIn, bindingcontext.lastConvVersion, bindingcontext.lastConvOut, controller.lastRefreshIn, controller.lastRefreshOut, controller.snapCount, controller.snapOf, hook.fsExists, hook.ctxFileContent, hook.nProcess, hook.lastExitErr, hook.nOutputsRead
 //@   modifies seenItems, filterItems, mergedTasks, mergedSeq, lastCombined, nMerged, all(queue.TaskQueue.items), all(queue.TaskQueue.measureActionFn), queue.nMut, allelems(string)
